@@ -456,6 +456,13 @@ func (s *Sched) yield(site uint32, force bool) {
 	s.handOff(t, next, site, true, 1)
 }
 
+// Discard replaces the library's prints to standard output (its debug mode):
+// the text is formatted as before and dropped.
+func Discard(site uint32, text string) { CntDiscarded += len(text) }
+
+// CntDiscarded counts the bytes the library tried to print.
+var CntDiscarded int
+
 // Step is inserted before every statement of the library.
 func Step(site uint32) {
 	s := sched
